@@ -505,7 +505,7 @@ class DiscreteFourierTransform(DiscreteFourierTransformBase):
         sign = '+' if self.sign == '-' else '-'
         return DiscreteFourierTransformInverse(
             domain=self.range, range=self.domain, axes=self.axes,
-            halfcomplex=self.halfcomplex, sign=sign)
+            halfcomplex=self.halfcomplex, sign=sign, impl=self.impl)
 
 
 class DiscreteFourierTransformInverse(DiscreteFourierTransformBase):
@@ -674,15 +674,25 @@ class DiscreteFourierTransformInverse(DiscreteFourierTransformBase):
         effort = flags[0] if flags else 'measure'
 
         direction = 'forward' if self.sign == '-' else 'backward'
+        if is_real_dtype(out.dtype) and not self.halfcomplex:
+            # C2R without half-complex storage: the FFT itself has to be
+            # C2C, the (vanishing) imaginary part is discarded afterwards
+            fft_out = np.empty(x.shape, dtype=x.dtype)
+        else:
+            fft_out = out
+
         self._fftw_plan = pyfftw_call(
-            x, out, direction=direction, axes=self.axes,
+            x, fft_out, direction=direction, axes=self.axes,
             halfcomplex=self.halfcomplex, planning_effort=effort,
             fftw_plan=self._fftw_plan, normalise_idft=True)
 
         # Need to normalize for 'forward', pyfftw before version 0.13
         # does not offer a way to do this.
         if self.sign == '-':
-            out /= np.prod(np.take(self.domain.shape, self.axes))
+            fft_out /= np.prod(np.take(self.domain.shape, self.axes))
+
+        if fft_out is not out:
+            out[:] = fft_out.real
 
         return out
 
@@ -692,7 +702,7 @@ class DiscreteFourierTransformInverse(DiscreteFourierTransformBase):
         sign = '-' if self.sign == '+' else '+'
         return DiscreteFourierTransform(
             domain=self.range, range=self.domain, axes=self.axes,
-            halfcomplex=self.halfcomplex, sign=sign)
+            halfcomplex=self.halfcomplex, sign=sign, impl=self.impl)
 
 
 class FourierTransformBase(Operator):
